@@ -178,7 +178,7 @@ func scanMetaOutMode(c *core.Ctx, collect func(f *types.Func, idx int, ok bool))
 								if nOut == 1 {
 									// the callee must itself define the metadata of what it receives there
 									defines := true
-									for _, cf := range effectsOf(c.Program).calleesOrSelf(info, v, f) {
+									for _, cf := range effFor(c).calleesOrSelf(info, v, f) {
 										if metaDeleg[cf][ai] {
 											defines = false
 										}
